@@ -104,6 +104,9 @@ func (opts *CBCEncrypterOpts) Decrypt(key, ciphertext []byte) ([]byte, error) {
 	if len(ciphertext) <= blockSize {
 		return nil, ErrDecryption
 	}
+	if len(ciphertext)%blockSize != 0 {
+		return nil, ErrDecryption
+	}
 	iv := ciphertext[:blockSize]
 	ciphertext = ciphertext[blockSize:]
 	plaintext := make([]byte, len(ciphertext))
@@ -144,7 +147,7 @@ func (opts *ECBEncrypterOpts) Decrypt(key, ciphertext []byte) ([]byte, error) {
 	if err != nil {
 		return nil, err
 	}
-	if len(ciphertext) == 0 {
+	if len(ciphertext) == 0 || len(ciphertext)%block.BlockSize() != 0 {
 		return nil, ErrDecryption
 	}
 	plaintext := make([]byte, len(ciphertext))
